@@ -1,14 +1,14 @@
 """C28 — the wheel's pure-Python helpers agree with the Rust core."""
 import vlib, gen, gen_py, pywheel
 
-LEVEL = "other"   # every conjunct but the curried-run equivalence is proved; that one is decided on the implementation
+LEVEL = "proof"   # every conjunct is proved (Props/C28.v); the curried run on the interpreter model (C28_curried_run)
 FAMILY = "py28"
 
 MANIFEST = {
- "level": 'other',
- "text": 'Partly proved, partly explored. Proved for all inputs about the Gallina transcription of wheel/python/clvm_rs/{ser,casts,curry_and_treehash,program}.py against the classic codec model (C15/C16): sexp_to_bytes = the recursive ser; the stream decoder with the size-field check `bit_count > 6` accepts exactly what node_from_stream accepts, with the same tree and the same remaining input, raising only ValueError; the unrepaired decoder agrees on every input without a 0xfe byte and is REFUTED on fe 00 00 00 00 00 01 61 (finding F4: a 7-byte size field is accepted); int_from_bytes = int_of_bytes and int_to_bytes = bytes_of_int (the canonical encoding) for every integer; curry_hash(treehash m, map treehash args) = treehash(curry m args) for every 32-byte hash function; uncurry(curry m args) = (m, args). Not proved: "running a curried program = running the module on the prepended environment" (needs the interpreter model) -- decided on the implementation (the run API of the wheel on both sides, and the Rust run_program) on generated programs. The model is run against the wheel (python3 + the cdylib built from the current tree) and its literals are pinned to what the translator re-reads from the Python sources.',
- "note": vlib.NOTE_COMMON + " For this property the implementation side of the correspondence is the wheel: wheel/python/clvm_rs plus the native module built by cargo from /repo's working tree, run under python3 by pyharness/driver.py. Level 'other' because one conjunct (curried run) is decided by search only (Props/C28.v names it).",
- "technique": 'Coq proof (explicit-stack/fuel refinement onto the classic codec model, finite byte sweeps by vm_compute) + translator pins + model/wheel/Rust three-way differential run',
+ "level": 'proof',
+ "text": 'Proved for all inputs, about the Gallina transcription of wheel/python/clvm_rs/{ser,casts,curry_and_treehash,program}.py against the classic codec model (C15/C16) and the interpreter model (Model/Machine.v = run_program.rs, C11): sexp_to_bytes = the recursive ser; the stream decoder with the size-field check `bit_count > 6` (what the translator reads from ser.py today; C28_decoder_current has it as its premise) accepts exactly what node_from_stream accepts, with the same tree and the same remaining input, raising only ValueError; the decoder WITHOUT the check is refuted on fe 00 00 00 00 00 01 61 (finding F4, repaired in /repo) and agrees on every input without a 0xfe byte; int_from_bytes = int_of_bytes and int_to_bytes = bytes_of_int (the canonical encoding) for every integer; curry_hash(treehash m, map treehash args) = treehash(curry m args) for every 32-byte hash function; uncurry(curry m args) = (m, args); and the curried run (C28_curried_run): for every dialect whose quote/apply keywords are 1/2 and whose operator 4 is cons (ChiaDialect under every flag word, its extension-hiding variant, RuntimeDialect: C28_curry_dialects), every module m, arguments a1..an, environment e and every outcome R (cost and value, or error kind; the model\'s fuel exhaustion excluded), run_program(curry m args, e) with K more budget has outcome R with K added to the cost iff run_program(m, (a1 ... an . e)) has outcome R, where K = 155 + 71 n = OP+QUOTE+APPLY + 44 (path lookup of 1) + n (OP+QUOTE+CONS) (C28_curry_cost); the proof goes through the big-step evaluator (equivalent to run_program for all those outcomes) and a cost-shift lemma (C28_cost_shift). Scope conventions: with the SAME finite budget the two runs can differ when the budget is within K of the module\'s cost (C28_run_witness); the interpreter model does not have the allocator caps or the stack limit; `Program != bytes` is structural inequality; the `_cached_serialization` shortcut of the Python serializer (bytes a tree was parsed from) is not modelled. The model is run against the wheel (python3 + the cdylib built from the current tree) and its literals are pinned to what the translator re-reads from the Python sources; the curried run is also observed on the implementation (same value / error through the wheel\'s run API and Rust run_program, cost difference = 155 + 71 n).',
+ "note": vlib.NOTE_COMMON + " For this property the implementation side of the correspondence is the wheel: wheel/python/clvm_rs plus the native module built by cargo from /repo's working tree, run under python3 by pyharness/driver.py.",
+ "technique": 'Coq proof (explicit-stack/fuel refinement onto the classic codec model, finite byte sweeps by vm_compute; big-step evaluator + cost-shift invariance for the curried run) + translator pins + model/wheel/Rust three-way differential run',
 }
 
 
@@ -26,7 +26,7 @@ def run(ctx):
                 "n<80 and selected n up to 1024, random up to 400 bits; curry: generated modules and 0..4 arguments, "
                 "near-curried shapes for uncurry; curried runs: hand-assembled programs over the core operators. "
                 "non-trivial = distinct case whose input is not a single byte / zero")
-    ctx.explanation = ("Part proof, part exploration (Props/C28.v lists proved and unproved conjuncts; every theorem closed under the "
+    ctx.explanation = ("Proof (Props/C28.v: every conjunct, the curried run on the interpreter model; every theorem closed under the "
                        "global context). Three-way differential run: Gallina model (OCaml extraction) vs the wheel under python3 vs "
                        "the Rust harness, on the same case lines. F4 (7-byte size field accepted by the pure-Python decoder) is "
                        "C28_refuted; C28_decoder_fixed is the agreement theorem for the repaired decoder.")
@@ -168,7 +168,17 @@ def run(ctx):
             ctx.distinct.add(c)
             ctx.nontrivial += 1
         ctx.histogram("crun_outcome", " ".join(p.split()[:2])[:12] + ("/val" if " val:" in p else "/err" if " err:" in p else ""))
-        if not p.startswith("ok same"):
+        # the closed-form cost difference of C28_curried_run: 155 + 71 per curried argument
+        dc = None
+        if " dc=" in p:
+            p, dc = p.rsplit(" dc=", 1)
+            dc = int(dc)
+        k = int(c.split()[2])
+        if dc is not None and dc != 155 + 71 * k:
+            ctx.violation("cost(curried program) - cost(module on the prepended environment) = %d, C28_curry_cost says %d"
+                          % (dc, 155 + 71 * k),
+                          {"case": c[:2000], "family": "py28", "runner": "pywheel", "impl": p + " dc=%d" % dc, "rust": q})
+        elif not p.startswith("ok same"):
             ctx.violation("curried program and module on the prepended environment give different results (wheel run API)",
                           {"case": c[:2000], "family": "py28", "runner": "pywheel", "impl": p, "rust": q})
         elif p != q:
